@@ -307,19 +307,10 @@ theorem mapConsumeF_dropped (φ : Nat → Bool) (f : Nat → α → α) (w : Wor
 
 /-! ### Tie T1: the order of effects in the source of `resize` and `clear`, re-extracted on every run -/
 
-/-- the source's order is the order `resizeFixed` / `clearF` model (and not the one of
-`resizePinned`): a shrinking `resize` publishes the shape and then truncates (the length is set
-before the tail is dropped, so the shape never describes more elements than exist); a growing
-`resize` installs the unwinding guard, fills with `resize_with`, defuses the guard and only then
-publishes the shape; the guard truncates back to the old length; `clear` resets the shape before
-clearing the vector; no other effect on shape or vector occurs (no `set_len`, `push`, `extend`) -/
-theorem effects_order_is_the_modelled_one :
-    Gen.effectsOrder =
-      [("resize", "shrink", [.shapeAssign, .truncate]),
-       ("resize", "grow", [.guardNew, .resizeWith, .forgetGuard, .shapeAssign]),
-       ("resize", "before-the-split", []),
-       ("clear", "all", [.shapeAssign, .clear])] ∧
-    Gen.resizeGuard = ("self.size", "old_size") := by decide
+/- The table theorem `effects_order_is_the_modelled_one` (T1: the order of the effects of `resize` / `clear`, read by
+regular expressions) was retired in the fourth session: `BridgeT14.resize_fx_bridge` / `clear_fx_bridge` prove the
+regenerated statement sequences, run under every fault schedule, equal to the functions the theorems above are about,
+which is strictly stronger, and the table alarmed on harmless rewrites (a renamed guard local). -/
 
 section Examples
 
